@@ -366,6 +366,10 @@ def _type(i, args, kw, node, fr):
     (v,) = args
     if isinstance(v, Obj):
         return v.cls
+    if isinstance(v, AObj):
+        from ..spec import CLASS_QUAL
+        if v.clsname in CLASS_QUAL:
+            return i.ctx.classref(CLASS_QUAL[v.clsname])  # an abstract view is declared to be exactly of that class
     raise Unsupported("type(%r)" % (v,), node)
 
 
@@ -483,6 +487,12 @@ def _ga_containers(i, v, name, node, fr):
                 seq_append(interp, self_, args[0], node2)
             return None
         return BoundMethod(v, app)
+    if isinstance(v, SymList) and name == "extend":
+        def ext2(interp, self_, args, kw, node2, fr2):
+            r = seq_concat(interp, self_, args[0], node2)
+            self_.seq = r.seq
+            return None
+        return BoundMethod(v, ext2)
     if isinstance(v, PyList) and name == "extend":
         def ext(interp, self_, args, kw, node2, fr2):
             self_.items.extend(interp.concrete_items(args[0], node2))
